@@ -66,8 +66,12 @@ type parserDef struct {
 	// field ("" = fixed point), a detail string and status "ok|skip|refused".
 	fix func(v interface{}) (string, string, string)
 	typ string
-	// inDecoder (handler-driven entries): does the panic stack pass through the decoder under test?
-	inDecoder func(stack string) bool
+	// exempt (handler-driven entries): is this panic one of the recorded observations
+	// outside C09 (DESIGN §8.6: failure after signature validation on well-formed bytes)?
+	exempt func(cr callRes) bool
+	// code: node-to-node message code of the entry (0 = none); the wire child re-sends
+	// every input through network.VerifWorkerHandleMessage (hook H10)
+	code uint32
 }
 
 var typeParsers = []*parserDef{
@@ -231,6 +235,9 @@ type engine struct {
 	panics  map[string]*panicRec // by signature
 	workers int
 	fixV    map[string]int
+	// wire child: panics are not judged (the booted child does), every executed input is handed to tap
+	quiet bool
+	tap   func(p *parserDef, h hostile, panicked bool)
 }
 
 func newEngine(r *mon.Run) *engine {
@@ -335,14 +342,21 @@ func (e *engine) one(p *parserDef, h hostile, l lcnt) int {
 	l["hostile_"+p.name]++
 	cr := call(p, h.b)
 	v, err := cr.v, cr.err
-	if cr.panicked && p.inDecoder != nil && !p.inDecoder(cr.stack) {
-		// the decoder had returned; the handler that had to be used to reach it failed later
-		l["handler_panics_after_decoding_"+p.name]++
+	if e.tap != nil {
+		defer func() { e.tap(p, h, cr.panicked) }()
+	}
+	if cr.panicked && e.quiet {
+		l["panics_seen_not_judged_here_"+p.name]++
+		return resPanic
+	}
+	if cr.panicked && p.exempt != nil && p.exempt(cr) {
+		// well-formed bytes, failure after signature validation: recorded in DESIGN §8.6, not judged
+		l["handler_panics_after_signature_check_"+p.name]++
 		l["reached_conversion_"+p.name]++
 		e.mu.Lock()
 		if e.fixV["after:"+p.name+cr.site] == 0 {
 			e.fixV["after:"+p.name+cr.site] = 1
-			e.r.Note("outside C09 (decoder had returned): %s panics in %s: %s; input %x", p.name, cr.site, cr.msg, clip(h.b, 200))
+			e.r.Note("outside C09 (DESIGN 8.6, decoder accepted the bytes, signature check failed): %s panics in %s: %s; input %x", p.name, cr.site, cr.msg, clip(h.b, 200))
 		}
 		e.mu.Unlock()
 		return resOK
@@ -592,7 +606,7 @@ func shrink(p *parserDef, b []byte, site string) []byte {
 	for step := len(cur) / 2; step >= 1; step /= 2 {
 		for i := 0; i+step <= len(cur); {
 			cand := append(append([]byte{}, cur[:i]...), cur[i+step:]...)
-			if cr := call(p, cand); cr.panicked && cr.site == site && (p.inDecoder == nil || p.inDecoder(cr.stack)) {
+			if cr := call(p, cand); cr.panicked && cr.site == site && (p.exempt == nil || !p.exempt(cr)) {
 				cur = cand
 			} else {
 				i += step
@@ -1057,11 +1071,15 @@ func main() {
 
 	// booted part in a child process, concurrently with the in-process part
 	var wg sync.WaitGroup
-	var res mon.ChildResult
-	wg.Add(1)
+	var res, wres mon.ChildResult
+	wg.Add(2)
 	go func() {
 		defer wg.Done()
 		res = r.RunChild(mon.ChildSpec{Label: "booted", Args: []string{"booted"}, Timeout: time.Duration(r.Pick(10, 60)) * time.Minute})
+	}()
+	go func() {
+		defer wg.Done()
+		wres = r.RunChild(mon.ChildSpec{Label: "wire", Args: []string{"wire"}, Timeout: time.Duration(r.Pick(10, 60)) * time.Minute})
 	}()
 
 	t0 := time.Now()
@@ -1078,6 +1096,12 @@ func main() {
 	r.Note("timing (informative): round trips %.1fs, hostile bytes %.1fs, shrinking %.1fs, waiting for the booted child %.1fs (child wall %.1fs)",
 		t1.Sub(t0).Seconds(), t2.Sub(t1).Seconds(), t3.Sub(t2).Seconds(), time.Since(t3).Seconds(), res.Wall.Seconds())
 	r.Absorb(res, "C09:booted")
+	// the wire child hands messages to WorkerConn.handleMessage (hook H10); the bus runs the
+	// handlers in goroutines without recover, so a handler panic kills that child
+	r.Absorb(wres, "C09:wire")
+	if r.Get("wire_child_finished") == 0 {
+		r.Note("wire child did not finish: exit=%d log tail: %s", wres.Exit, tail(wres.LogTail, 1500))
+	}
 	if r.Get("booted_child_finished") == 0 {
 		r.Note("booted child did not finish: exit=%d log tail: %s", res.Exit, tail(res.LogTail, 1500))
 	}
@@ -1096,7 +1120,7 @@ func main() {
 	}
 
 	var evals int64
-	must := []string{"hash_comparisons", "booted_child_finished", "node_values_roundtrip"}
+	must := []string{"hash_comparisons", "booted_child_finished", "node_values_roundtrip", "node_messages_to_handlers", "wire_messages_sent"}
 	for _, cd := range codecs {
 		evals += r.Get("roundtrip_"+cd.typ) + r.Get("fixedpoint_"+cd.typ)
 		must = append(must, "roundtrip_"+cd.typ)
@@ -1123,7 +1147,9 @@ func main() {
 			"Block.Transactions and Group.Members are compared by length and elements (nil vs empty list not distinguished: no hash or JSON identity depends on it); every other list / byte field / map is compared with nil != empty",
 			"totality oracle: value or error, no panic; (nil, nil) results (e.g. UnMarshalBlockHeader on a malformed time blob) are counted, not judged",
 			"a serialiser refusing (error / nil bytes) an arbitrary or parsed value is counted, not judged; refusing a node-producible value is a violation",
-			"ConsensusHandler.Handle recovers panics of the consensus decoders; the two exported decoders are judged at function level",
+			"ConsensusHandler.Handle recovers panics of the consensus decoders; the two exported decoders are judged at function level, Handle itself for every consensus message code (nothing may escape)",
+			"receive handlers (core.SyncProcessor / core.ChainHandler HandleNetMessage, WorkerConn.handleMessage through hook H10) are part of the totality clause: any panic on bytes offered to them is a violation C09:handler:<topic>:panic:<frame>; only exception (DESIGN 8.6): the panicking source line is the 'Sign verify error' log statement that calls e.Error() on the nil decode error, i.e. the decoder accepted the bytes and signature validation failed",
+			"validly signed sync requests are not offered: the handlers would answer through the network instance, which is not started in the harness (send blocks on a nil channel)",
 		},
 		MustObserve: must,
 	})
